@@ -13,7 +13,9 @@ FACTS = ["Layers"]
 COQ_HEADER = "From SPV Require Import CorrDefs.CorrC06."
 COQ_CASE_TYPE = "case"
 RULE = ("nested dataclasses (kw_only, depth <= 3, 1..6 leaves of kind int / str / Optional[int], one or two destinations; in about a fifth "
-        "of them a top-level leaf or nested field is NAMED LIKE THE DESTINATION, e.g. Experiment.config with dest='config') x an assignment "
+        "of them a top-level leaf or nested field is NAMED LIKE THE DESTINATION, e.g. Experiment.config with dest='config'; in about a fifth "
+        "some nested members are typed Optional[<dataclass>] = None, mentioned by nobody / only by files or set_defaults / by the "
+        "default instance / by options) x an assignment "
         "of every leaf to a subset of the five layers {definition, default, constructor config files, --config_path files, command "
         "line}, each mention carrying a marker value that encodes (leaf, layer, file index); for schemas with <= 3 leaves every leaf "
         "is taken through all 2^5 subsets (the other leaves random; thorough: the full product on two-leaf schemas), larger schemas are "
@@ -34,6 +36,8 @@ ASSUMPTIONS = [
     "field names are unique over the whole forest and at least two characters long (option strings are then --<name>, or the dotted destination path in NESTED mode)",
     "a top-level field whose name is a prefix of `config_path` (e.g. `config`) is not given on the command line: the temporary --config_path parser would take `--config` as an abbreviation",
     "explicit nulls are written only for Optional[int] leaves",
+    "the class of an Optional[<dataclass>] = None member has only plain fields, all with definition defaults (an option below a dataclass "
+    "nested inside an Optional member is dropped by the implementation when nothing else touches the member: upstream's own `BUG` note)",
     "set_defaults is called after add_arguments; a destination section is never a string (that would be read as a path)",
 ]
 
@@ -61,8 +65,9 @@ def forest_leaves(roots):
     return out
 
 
-def make_schema(rng, n_leaves, max_depth, counter):
-    """a class tree with exactly n_leaves leaves; names unique through `counter`"""
+def make_schema(rng, n_leaves, max_depth, counter, p_opt=0.0):
+    """a class tree with exactly n_leaves leaves; names unique through `counter`; with probability p_opt a nested member whose
+    class has only plain fields is typed Optional[<class>] = None"""
 
     def mk(n, depth):
         cname = f"K{counter['c']}"
@@ -81,7 +86,11 @@ def make_schema(rng, n_leaves, max_depth, counter):
             if isn:
                 name = f"n{counter['n']}"
                 counter["n"] += 1
-                fields.append({"name": name, "cls": mk(k, depth + 1)})
+                sub = mk(k, depth + 1)
+                fld = {"name": name, "cls": sub}
+                if all("cls" not in f for f in sub["fields"]) and rng.random() < p_opt:
+                    fld["optional"] = True
+                fields.append(fld)
             else:
                 name = f"l{counter['l']}"
                 counter["l"] += 1
@@ -118,6 +127,10 @@ def build_case(rng, api, nm, ndest, roots, subsets, nulls_ok=True, probe=None, g
     leaves = forest_leaves(roots)
     idx = {p: i + 1 for i, (p, _) in enumerate(leaves)}
     nulls = []
+    opts = opt_member_paths(roots)
+    for p, _ in leaves:
+        if any(p[:len(a)] == a for a in opts):
+            subsets[p].add("def")  # the member's class is instantiated with its own defaults
     for p, _ in leaves:
         # `--config` would be taken by the temporary parser as an abbreviation of --config_path: not this property's subject
         if len(p) == 2 and "config_path".startswith(p[1]):
@@ -301,16 +314,31 @@ def api_variants():
             ("ap", "WITHOUT_ROOT", 1), ("ap", "WITHOUT_ROOT", 2), ("ap", "DEFAULT", 1)]
 
 
-def make_roots(rng, api, ndest, n_leaves, max_depth, samename=None):
+def opt_member_paths(roots):
+    out = []
+
+    def walk(node, p):
+        for f in node["fields"]:
+            if "cls" in f:
+                if f.get("optional"):
+                    out.append(p + (f["name"],))
+                walk(f["cls"], p + (f["name"],))
+
+    for r in roots:
+        walk(r["cls"], (r["dest"],))
+    return out
+
+
+def make_roots(rng, api, ndest, n_leaves, max_depth, samename=None, p_opt=0.0):
     """samename: None | "leaf" | "nested" | "any" - give one top-level field of the first dataclass the NAME OF ITS DESTINATION
     (e.g. `Experiment.config: ModelConfig` parsed with parse()'s default dest="config")"""
     counter = {"c": 0, "n": 0, "l": 0}
     if ndest == 1:
-        roots = [{"dest": "config" if api == "parse" else "cfg", "cls": make_schema(rng, n_leaves, max_depth, counter)}]
+        roots = [{"dest": "config" if api == "parse" else "cfg", "cls": make_schema(rng, n_leaves, max_depth, counter, p_opt)}]
     else:
         a = max(1, n_leaves // 2)
-        roots = [{"dest": "cfg", "cls": make_schema(rng, a, max_depth, counter)},
-                 {"dest": "oth", "cls": make_schema(rng, max(1, n_leaves - a), max(1, max_depth - 1), counter)}]
+        roots = [{"dest": "cfg", "cls": make_schema(rng, a, max_depth, counter, p_opt)},
+                 {"dest": "oth", "cls": make_schema(rng, max(1, n_leaves - a), max(1, max_depth - 1), counter, p_opt)}]
     if samename:
         fields = roots[0]["cls"]["fields"]
         want = [f for f in fields if ("cls" in f) == (samename == "nested")] if samename != "any" else fields
@@ -405,7 +433,8 @@ def gen(tier, seed):
     for _ in range(500 if quick else 8000):
         api, nm, ndest = rng.choice(apis)
         n_leaves = rng.randint(2, 6)
-        roots = make_roots(rng, api, ndest, n_leaves, rng.randint(1, 3), samename=rng.choice([None] * 5 + ["leaf", "nested"]))
+        roots = make_roots(rng, api, ndest, n_leaves, rng.randint(1, 3), samename=rng.choice([None] * 5 + ["leaf", "nested"]),
+                           p_opt=rng.choice([0.0, 0.0, 0.5]))
         leaves = forest_leaves(roots)
         cases.append(build_case(rng, api, nm, ndest, roots, random_subsets(rng, leaves),
                                 gen_mode="NESTED" if (rng.random() < 0.2 and ndest == 1) else "FLAT"))
@@ -419,6 +448,24 @@ def gen(tier, seed):
             if p[1] == p[0]:
                 subsets[p] |= {rng.choice(["ctor", "clif"])}
         cases.append(build_case(rng, api, nm, ndest, roots, subsets, gen_mode="NESTED" if (i % 6 == 5 and ndest == 1) else "FLAT"))
+    # (2c) Optional[Dataclass] = None members: mentioned by nobody / only by files or set_defaults / by the instance / by options
+    for i in range(240 if quick else 3600):
+        api, nm, ndest = apis[i % len(apis)]
+        roots = make_roots(rng, api, ndest, rng.randint(2, 6), rng.randint(2, 3), p_opt=1.0)
+        leaves = forest_leaves(roots)
+        subsets = random_subsets(rng, leaves)
+        mode = i // len(apis) % 4
+        for a in opt_member_paths(roots):
+            below = [p for p, _ in leaves if p[:len(a)] == a]
+            if mode == 0:      # only file layers (and set_defaults where the API has it) mention it
+                layer = rng.choice(["ctor", "clif"] + (["dflt"] if api == "ap" else []))
+                for p in below:
+                    subsets[p] = {"def"} | ({layer} if rng.random() < 0.7 or p == below[0] else set())
+            elif mode == 1:    # nobody mentions it
+                for p in below:
+                    subsets[p] = {"def"}
+        via = "sd_dict" if (mode == 0 and api == "ap" and any("dflt" in subsets[p] for p, _ in leaves) and i % 2 == 0) else None
+        cases.append(build_case(rng, api, nm, ndest, roots, subsets, via=via, nulls_ok=(i % 3 != 0)))
     # (3) probes
     for i in range(330 if quick else 5000):
         api, nm, ndest = rng.choice(apis)
@@ -451,7 +498,9 @@ def class_source(roots):
         for f in node["fields"]:
             if "cls" in f:
                 sub = f["cls"]
-                if all(lf["def"] != ["missing"] for _, lf in leaves_of(sub)):
+                if f.get("optional"):
+                    body.append(f"    {f['name']}: Optional[{sub['cname']}] = None")
+                elif all(lf["def"] != ["missing"] for _, lf in leaves_of(sub)):
                     body.append(f"    {f['name']}: {sub['cname']} = field(default_factory={sub['cname']})")
                 else:
                     body.append(f"    {f['name']}: {sub['cname']}")
@@ -488,7 +537,7 @@ def _instance(ns, node, doc):
     for f in node["fields"]:
         if "cls" in f:
             sub_doc = (doc or {}).get(f["name"])
-            has_default = all(lf["def"] != ["missing"] for _, lf in leaves_of(f["cls"]))
+            has_default = f.get("optional") or all(lf["def"] != ["missing"] for _, lf in leaves_of(f["cls"]))
             if sub_doc is not None or not has_default:
                 kw[f["name"]] = _instance(ns, f["cls"], sub_doc or {})
         elif doc is not None and f["name"] in doc:
@@ -638,6 +687,8 @@ def shape_ok(node, t):
     for f in node["fields"]:
         if f["name"] in t:
             if "cls" in f:
+                if f.get("optional") and t[f["name"]] is None:
+                    continue
                 if not shape_ok(f["cls"], t[f["name"]]):
                     return False
             elif isinstance(t[f["name"]], dict):
@@ -683,8 +734,22 @@ def verdict(case, obs):
     if not all(forest(shape_ok, roots, d, True) for d in [obs["inst"], case["cli"]] + docs):
         return ("unspecified",)
     out = []
+    order = [case["cli"]] + clif[::-1] + ctor[::-1] + obs["sdefs"][::-1] + [obs["inst"]]
+
+    def collapsed(a):
+        for d in order:
+            s = subtree(a, d)
+            if s[0] == "at" and (s[1] is None or isinstance(s[1], dict)):
+                return s[1] is None
+        return True
+
+    gone = [a for a in opt_member_paths(roots) if collapsed(a)]
+    for a in gone:
+        if not any(a[:len(b)] == b and a != b for b in gone):
+            out.append((a, ("at", None), "optional-member-unmentioned", {"kind": "optional member"}))
     for p, f in forest_leaves(roots):
-        order = [case["cli"]] + clif[::-1] + ctor[::-1] + obs["sdefs"][::-1] + [obs["inst"]]
+        if any(p[:len(a)] == a for a in gone):
+            continue
         m = first_mention(p, order)
         src = None
         if m[0] == "absent":
@@ -737,6 +802,10 @@ def judge(case, obs):
         if m[0] == "absent":
             continue
         got = subtree(p, o[1])
+        if got != m and f["kind"] == "optional member":
+            return (f"Optional member {'.'.join(p)}: no source gives it a section, so it must stay None; observed {got}", "optional-member-not-none")
+        if got != m and got[0] == "absent":
+            return (f"field {'.'.join(p)} ({f['kind']}): `{src}` gives it {m[1]!r}, but its Optional parent came back as None", f"optional-member-none:{src}")
         if got != m:
             kind = "null" if m[1] is None else "value"
             return (f"field {'.'.join(p)} ({f['kind']}): highest-priority source mentioning it is `{src}` with {m[1]!r}, observed {got}",
@@ -789,7 +858,7 @@ def features(case, obs):
     if case["kind"] == "union":
         return {"kind": "union", "compatible": compatible(case["a"], case["b"])}
     o = obs["obs"]
-    return {"kind": "parse", "field_named_like_dest": any(f["name"] == r["dest"] for r in case["roots"] for f in r["cls"]["fields"]), "api": f"{case['api']}/{case['nm']}/{len(case['roots'])}", "gen": case["gen"], "via": case["via"],
+    return {"kind": "parse", "optional_members": len(opt_member_paths(case["roots"])), "field_named_like_dest": any(f["name"] == r["dest"] for r in case["roots"] for f in r["cls"]["fields"]), "api": f"{case['api']}/{case['nm']}/{len(case['roots'])}", "gen": case["gen"], "via": case["via"],
             "nctor": len(case["ctor"]), "nclif": len(case["clif"]) if case["cli_given"] else "-", "probe": case["probe"],
             "leaves": len(forest_leaves(case["roots"])), "depth": max(depth_of(r["cls"]) for r in case["roots"]),
             "nulls": bool(case["nulls"]), "ctor_form": case["ctor_form"], "acp": case["acp"],
@@ -815,16 +884,16 @@ def ctree(t):
     raise ValueError(f"unrepresentable {t!r}")
 
 
-def cwtree(node):
+def cwtree(node, optional=False):
     fs = []
     for f in node["fields"]:
         if "cls" in f:
-            fs.append(cpair(cstr(f["name"]), cwtree(f["cls"])))
+            fs.append(cpair(cstr(f["name"]), cwtree(f["cls"], bool(f.get("optional")))))
         else:
             d = f["def"]
             dd = "None" if d == ["missing"] else ("(Some PNull)" if d == ["none"] else f"(Some {ctree(d[1])})")
             fs.append(cpair(cstr(f["name"]), f"(WLeaf {cbool(f['kind'] == 'optint')} {dd} None PNull)"))
-    return "(WClass " + clist(fs) + ")"
+    return f"(WClass {'(COpt false false)' if optional else 'CPlain'} " + clist(fs) + ")"
 
 
 def cobs(o):
